@@ -55,6 +55,42 @@ Proof.
 Qed.
 Print Assumptions C39_transparent_metadata_changed.
 
+(* ---- the set of encrypted columns is derived from the policy, per column, under the column's OWN (keyspace, table, name),
+   and the policy may change at any time (add_column).  After ANY history of registrations, decodes and round trips on one
+   policy object, writing rows through a prepared statement and reading them back returns them unchanged -- with markers of
+   several tables (prepared BATCH / PREPARED response without global table spec) and columns registered late included. *)
+Theorem C39_transparent_history : forall (V T : Type) (ser : T -> V -> option (list Z)) (deser : T -> list Z -> option V)
+         (enc dec : list Z -> list Z -> list Z -> list Z),
+  (forall k iv x, (length x mod 16 = 0)%nat -> dec k iv (enc k iv x) = x) ->
+  (forall t v b, ser t v = Some b -> deser t b = Some v) ->
+  forall (p0 : policy T) (h : list (pop V T)) ms iv rows wire,
+  let p := fst (prun V T ser deser enc dec p0 h) in
+  length iv = 16%nat -> Forall (fun r => length r <= length ms)%nat rows ->
+  bind_rows V T ser enc iv (map (resolve T p) ms) rows = Some wire ->
+  pstep V T ser deser enc dec p (PRound V T ms iv rows) = (p, OutRound V (Some wire) (Some rows)).
+Proof.
+  intros V T ser deser enc dec Haes Hcodec p0 h ms iv rows wire p Hiv Hall Hb.
+  rewrite (surjective_pairing (pstep V T ser deser enc dec p (PRound V T ms iv rows))).
+  rewrite (round_transparent V T ser deser enc dec Haes Hcodec p ms iv rows wire Hiv Hall Hb). reflexivity.
+Qed.
+Print Assumptions C39_transparent_history.
+
+(* what goes out for marker i depends on the policy entry of ITS OWN ColDesc only; a registration is visible at once *)
+Theorem C39_sent_by_own_desc : forall (V T : Type) (ser : T -> V -> option (list Z)) (enc : list Z -> list Z -> list Z -> list Z)
+    (p : policy T) iv vals ms w i m,
+  bind_row V T ser enc iv (map (resolve T p) ms) vals = Some w -> nth_error ms i = Some m ->
+  (forall k t x, pol_find T p (m_desc m) = Some (k, t) -> nth_error vals i = Some (Some x) ->
+     exists b, ser t x = Some b /\ nth_error w i = Some (Some (encrypt enc k iv b))) /\
+  (forall x, pol_find T p (m_desc m) = None -> nth_error vals i = Some (Some x) ->
+     exists b, ser (m_type m) x = Some b /\ nth_error w i = Some (Some b)) /\
+  (forall d k t, pol_find T (add_column T p d k t) d = Some (k, t)).
+Proof.
+  intros V T ser enc p iv vals ms w i m Hb Hm.
+  destruct (sent_by_own_desc V T ser enc p iv vals ms w i m Hb Hm) as [H1 H2]. split; [exact H1|]. split; [exact H2|].
+  intros d k t. rewrite add_column_find. rewrite (proj2 (desc_eqb_eq d d) eq_refl). reflexivity.
+Qed.
+Print Assumptions C39_sent_by_own_desc.
+
 (* non-null values of encrypted columns go out as iv ++ AES(pad(serialize v)) with the POLICY's type; nulls stay null;
    columns outside the policy go out as their plain serialization *)
 Theorem C39_sent_encrypted : forall (V T : Type) (ser : T -> V -> option (list Z)) (enc : list Z -> list Z -> list Z -> list Z)
